@@ -187,7 +187,7 @@ Theorem C06_std_distance_from_centre :
   forall Rc L M N : R,
        Rc <> 0%R ->
        (L * L + M * M + N * N)%R = 1%R ->
-       N <> 0%R ->
+       (N * Rc < 0)%R ->
        k_std_distance XOps (Fin 0) (Fin N) (Fin L) (Fin M) (Fin Rc) (Fin 0) (Fin 0) (Fin Rc) =
        Fin (Rabs Rc).
 Proof. exact std_distance_from_centre. Qed.
@@ -246,4 +246,41 @@ Theorem C06_strehl_spec_const_phase :
        Rsum a n <> 0%R -> strehl_spec a (fun _ : nat => c) n = 1%R.
 Proof. exact strehl_spec_const_phase. Qed.
 Print Assumptions C06_strehl_spec_const_phase.
+
+
+Theorem C06_std_distance_far_focus_regression :
+  k_std_distance XOps (Fin (-9 / 4)) (Fin (4 / 5)) (Fin 0) (Fin (3 / 5)) 
+         (Fin (-22)) (Fin 0) (Fin 0) (Fin 11) = Fin 55.
+Proof. exact std_distance_far_focus_regression. Qed.
+Print Assumptions C06_std_distance_far_focus_regression.
+
+Theorem C06_conic_mirror_from_focus :
+  forall Rc e L M N t : R,
+       Rc <> 0%R ->
+       (1 + e)%R <> 0%R ->
+       (1 - e)%R <> 0%R ->
+       (L * L + M * M + N * N)%R = 1%R ->
+       (- (e * e) * (N * N) + L * L + M * M + N * N)%R <> 0%R ->
+       k_std_distance XOps (Fin (- (e * e))) (Fin N) (Fin L) (Fin M) (Fin (focus Rc e)) 
+         (Fin 0) (Fin 0) (Fin Rc) = Fin t ->
+       (1 - (1 + - (e * e)) * ((0 + t * L) * (0 + t * L) + (0 + t * M) * (0 + t * M)) / (Rc * Rc))%R <>
+       0%R ->
+       (e * (focus Rc e + t * N) + focus Rc e)%R <> 0%R ->
+       (focus Rc (- e) - e * (focus Rc e + t * N))%R <> 0%R ->
+       on_vertex_sheet Rc (- (e * e)) (0 + t * L) (0 + t * M) (focus Rc e + t * N) /\
+       (0 <= t)%R /\
+       (exists tau : R,
+          (tau = 1%R \/ tau = (-1)%R) /\
+          t = (tau * (e * (focus Rc e + t * N) + focus Rc e))%R /\
+          (let
+           '(nx, ny, nz) := k_std_normal ROps (0 + t * L)%R (0 + t * M)%R Rc (- (e * e))%R in
+            let
+            '(L', M', N') := k_reflect ROps nx ny nz L M N in
+             unit3 L' M' N' /\
+             through_axis_point (0 + t * L) (0 + t * M) (focus Rc e + t * N) L' M' N'
+               (tau * (focus Rc (- e) - e * (focus Rc e + t * N))) (focus Rc (- e))) /\
+          ((1 - e * e) * (t + tau * (focus Rc (- e) - e * (focus Rc e + t * N))))%R =
+          (tau * (2 * Rc))%R).
+Proof. exact conic_mirror_from_focus. Qed.
+Print Assumptions C06_conic_mirror_from_focus.
 
